@@ -55,9 +55,9 @@ def ob_fragment(ctx):
     e1, e2, e3 = s1 + d1, s1 + d1 + d2, s1 + d1 + d2 + d3
     parts = mk_parts(ctx, "f", NP, n)
     ctx.assume(And([e - s < n for (s, e, _) in parts]))
-    quals = {"label": ["feat"], "note": ["a", "b"]}
+    quals = {"label": ["feat"], "note": ["a", "b"], "plain": "text", "number": 3}
     ftype = P.get("ftype", "CDS")  # "source": provenance written by an earlier assembly, inherited like any feature
-    feat = build_feature(st, parts, ftype, quals, fid="F1")
+    feat = build_feature(st, parts, ftype, dict(quals, label=["feat"], note=["a", "b"]), fid="F1")
     data = tags(n)
     cls = Mod if role == "module" else Vec
     if P.get("history"):
@@ -84,6 +84,10 @@ def ob_fragment(ctx):
                 "fragment-letters")
     inside = And([mod(ps - a0, n) + (pe - ps) <= flen for (ps, pe, _) in parts])
     empty_part = Or([Eq(pe, ps) for (ps, pe, _) in parts])
+    # a zero-length part (a between-bases marker such as 9^10) exactly on an end of the fragment may be read on either
+    # side of the cut; strictly inside the fragment it is inherited like any other part
+    surely_inside = And([If(Eq(pe, ps), And(0 < mod(ps - a0, n), mod(ps - a0, n) < flen), mod(ps - a0, n) + (pe - ps) <= flen)
+                         for (ps, pe, _) in parts])
     generated = [g for g in frag.features if g.type == "source" and g.id != "F1" and g.qualifiers.get("plasmid") == "plasmid"]
     ctx.require(len(generated) == 1, "generated-source-feature-count:%d" % len(generated))
     imgs = [g for g in frag.features if g is not generated[0]]
@@ -91,6 +95,7 @@ def ob_fragment(ctx):
     ctx.witness("inherited" if imgs else "dropped")
     if not imgs:
         ctx.require(Or(Not(inside), empty_part), "feature-inside-the-fragment-was-dropped")
+        ctx.require(Not(surely_inside), "feature-strictly-inside-the-fragment-was-dropped")
         return True
     g = imgs[0]
     ctx.require(Or(inside, empty_part), "feature-overlapping-a-discarded-region-was-kept")
